@@ -29,11 +29,13 @@ def model_runs(ck):
              ("Chains K=1 Steps=3, loader draws 2 first (single chain continues on the parent stream)", (1, 3, 1, False, False, 2, False), "pass"),
              ("DEV one shared stream", (2, 2, 2, True, False, 0, False), "fail"), ("DEV streams per worker slot", (3, 2, 2, False, True, 0, False), "fail"),
              ("DEV loader draws concurrently with a single chain", (1, 2, 1, False, False, 2, True), "fail"),
-             ("DEV chains do not clear the process-global memo tables (3 chains, 3 workers: a finished worker takes a queued chain)", (3, 1, 3, False, False, 0, False, False), "fail")]
+             ("DEV chains do not clear the process-global memo tables (3 chains, 3 workers: a finished worker takes a queued chain)", (3, 1, 3, False, False, 0, False, False), "fail"),
+             ("DEV the convolution routine is chosen by a timing race", (2, 1, 2, False, False, 0, False, True, True), "fail")]
     jobs = [dict(job="c18_%d" % i, module="Chains", workers=2, timeout=900,
                  cfg=tlc.cfg_text(constants={"K": a[0], "Steps": a[1], "W": a[2], "SharedStream": tlc.tla_bool(a[3]), "StreamPerWorker": tlc.tla_bool(a[4]),
                                              "PreDraws": a[5], "LazyLoad": tlc.tla_bool(a[6]),
-                                             "ColdStartPerChain": tlc.tla_bool(a[7] if len(a) > 7 else True)},
+                                             "ColdStartPerChain": tlc.tla_bool(a[7] if len(a) > 7 else True),
+                                             "RaceChoice": tlc.tla_bool(a[8] if len(a) > 8 else False)},
                                   invariants=["ScheduleIndependence", "KeyedByChain", "NoSharedDraw"])) for i, (_, a, _) in enumerate(cases)]
     for (label, _, expect), r in zip(cases, tlc.run_many(jobs)):
         ck.add_tlc(label, r, must_fail=(expect == "fail"))
